@@ -1,17 +1,21 @@
 INIT Init
 NEXT Next
 CONSTANTS
-  Mode = "raw"
+  Mode = "both"
   ValSeq <- ValsFull
   OneOfSeq <- OneOfsFull
   OrSeq <- OrsFull
-  MaxBounds = 4
-  ParamSeq <- ParamsSmall
+  MaxBounds = 3
+  ParamSeq <- ParamsFull
   DeclSeq <- DeclsFull
-  MaxParams = 1
+  MaxParams = 2
+  MinSize = 0
   Bug = "none"
 INVARIANT SolutionSatisfiesBounds
 INVARIANT UnsatIsDiagnosed
 INVARIANT OrderIndependent
 INVARIANT MachineIsOperator
+INVARIANT CallSolutionSatisfies
+INVARIANT CallUnsatIsDiagnosed
+INVARIANT CallOrderIndependent
 CHECK_DEADLOCK FALSE
